@@ -229,33 +229,59 @@ func checkUnmarshalPlumbing(p *Prog, r *Report, prefix string) {
 		// the relationships loop: range over <skeleton>.Relationships
 		var relLoop map[*ssa.BasicBlock]bool
 		var attrLoop map[*ssa.BasicBlock]bool
-		eachInstr(f, func(ins ssa.Instruction) {
-			rg, ok := ins.(*ssa.Range)
-			if !ok {
-				return
+		// the loops may live in the function itself or in a phase helper that
+		// receives the skeleton's member as an argument
+		scope := append([]*ssa.Function{f}, stringHelpers(f)...)
+		memberOf := func(g *ssa.Function, v ssa.Value) string {
+			if _, fl, ok := fieldLoad(v); ok {
+				return fl
 			}
-			_, fl, ok := fieldLoad(rg.X)
-			if !ok {
-				return
-			}
-			for _, ref := range referrers(rg) {
-				if nx, ok := ref.(*ssa.Next); ok {
-					switch fl {
-					case "Relationships":
-						relLoop = naturalLoop(nx.Block())
-					case "Attributes":
-						attrLoop = naturalLoop(nx.Block())
+			if prm, ok := v.(*ssa.Parameter); ok && g != f {
+				idx := -1
+				for i, q := range g.Params {
+					if q == prm {
+						idx = i
 					}
 				}
+				fl := ""
+				eachInstr(f, func(i2 ssa.Instruction) {
+					if c, ok := i2.(*ssa.Call); ok && c.Common().StaticCallee() == g && idx >= 0 && idx < len(c.Common().Args) {
+						if _, f2, ok := fieldLoad(c.Common().Args[idx]); ok {
+							fl = f2
+						}
+					}
+				})
+				return fl
 			}
-		})
+			return ""
+		}
+		for _, g := range scope {
+			g := g
+			eachInstr(g, func(ins ssa.Instruction) {
+				rg, ok := ins.(*ssa.Range)
+				if !ok {
+					return
+				}
+				fl := memberOf(g, rg.X)
+				for _, ref := range referrers(rg) {
+					if nx, ok := ref.(*ssa.Next); ok {
+						switch fl {
+						case "Relationships":
+							relLoop = naturalLoop(nx.Block())
+						case "Attributes":
+							attrLoop = naturalLoop(nx.Block())
+						}
+					}
+				}
+			})
+		}
 		if relLoop == nil || attrLoop == nil {
 			r.bad(prefix+".plumbing", name+":loops", p.pos(f.Pos()), "cannot find the loops over the payload's attributes and relationships")
 			continue
 		}
 		// fresh linkage variables
 		nLink := 0
-		eachInstr(f, func(ins ssa.Instruction) {
+		eachInstrOf(scope, func(ins ssa.Instruction) {
 			c, ok := ins.(*ssa.Call)
 			if !ok {
 				return
@@ -298,7 +324,7 @@ func checkUnmarshalPlumbing(p *Prog, r *Report, prefix string) {
 
 		// Set calls: where and with what
 		nSet := 0
-		eachInstr(f, func(ins ssa.Instruction) {
+		eachInstrOf(scope, func(ins ssa.Instruction) {
 			c, ok := ins.(*ssa.Call)
 			if !ok {
 				return
@@ -356,7 +382,7 @@ func checkUnmarshalPlumbing(p *Prog, r *Report, prefix string) {
 				r.bad(prefix+".plumbing", key, p.pos(c.Pos()), "Set is called outside the loops over the payload's members: a field absent from the payload does not keep its zero value")
 			}
 		})
-		r.floor(name+" Set calls", nSet, 3)
+		r.floor(name+" Set calls", nSet, 2)
 	}
 }
 
@@ -455,4 +481,10 @@ func idProjection(ms *ssa.MakeSlice, src ssa.Value) bool {
 		}
 	}
 	return good
+}
+
+func eachInstrOf(fns []*ssa.Function, fn func(ins ssa.Instruction)) {
+	for _, g := range fns {
+		eachInstr(g, fn)
+	}
 }
